@@ -247,6 +247,82 @@ let do_wstx role fragsize msgs =
         (if server then 0 else 1) (hexs payload)) (ws_send_frames false false fs (h @ b))) (parse_msgs msgs);
   Printf.printf "end sent_rv=0 frames=%d rest=0\n" !cnt
 
+(* ----------------------------------------------------------- C11 sessions *)
+let proto_rx_of (proto : string) : proto_rx =
+  let ttl = nat_of_int 8 in
+  match proto with
+  | "rep" -> PrRep ttl | "xrep" -> PrXRep ttl | "req" -> PrReq | "xreq" -> PrXReq
+  | "surveyor" -> PrSurveyor | "xsurveyor" -> PrXSurveyor
+  | "respondent" -> PrResp ttl | "xrespondent" -> PrXResp ttl
+  | "pair1" -> PrPair1 (false, ttl) | "pair1raw" -> PrPair1 (true, ttl)
+  | _ -> PrPlain
+
+let do_sess tran role proto rcvmax streamhex cuts flags ctlhex self peer =
+  let cfg = { cc_rx = { r_kind = kind_of tran; r_rcvmax = n_of_string rcvmax; r_allocmax = allocmax };
+              cc_self = n_of_string self; cc_expect = n_of_string peer; cc_proto = proto_rx_of proto; cc_pipe = N0 } in
+  let ps = pieces (bytes_of_hex streamhex) (parse_list cuts) in
+  match conn_feed_all cfg (conn_init cfg) ps with
+  | None -> print_endline "sess panic"
+  | Some (st, evs) ->
+      let n = ref 0 in
+      let silent = proto = "req" || proto = "surveyor" in   (* nothing is outstanding: every reply is discarded *)
+      List.iter (function
+        | CDeliver (h, b) ->
+            if not silent then begin
+              incr n;
+              if proto = "xrep" || proto = "xrespondent" then
+                Printf.printf "rx hdr=P:%s body=%s\n" (hexs (drop 4 h)) (hexs b)
+              else if proto = "rep" || proto = "respondent" then print_rx_msg [] b
+              else print_rx_msg h b
+            end
+        | _ -> ()) evs;
+      let closed_m = (match st with CClosed -> true | _ -> false) in
+      let reset = String.contains flags 'r' in
+      let closed = closed_m || String.contains flags 'c' || reset in
+      let shown = if reset then 1 else if String.contains flags 'w' then (if closed then 1 else 0) else -1 in
+      Printf.printf "end n=%d closed=%d\n" !n shown;
+      if ctlhex <> "-" then begin
+        let single = String.length proto >= 4 && String.sub proto 0 4 = "pair" in
+        if shown <> 1 && (single || role = "d") then print_endline "ctl skipped" else print_endline "ctl ok=1"
+      end
+
+(* ------------------------------------------------------------------ UDP *)
+let le16_bytes (v : int) = [n_of_int (v land 255); n_of_int ((v lsr 8) land 255)]
+let do_udp dgrams self peer =
+  let selfid = int_of_string self and peerid = int_of_string peer in
+  let pipe = ref None and n = ref 0 and refresh = ref 5 in
+  let reply op p0 p1 =
+    Printf.printf "reply %s\n" (hexs ([n_of_int 1; n_of_int op] @ le16_bytes selfid @ le16_bytes p0 @ le16_bytes p1)) in
+  List.iter (fun dh ->
+    let d = bytes_of_hex dh in
+    let ep = { ue_dialer = false; ue_closed = false; ue_pipe = !pipe; ue_full = false } in
+    let op = match d with _ :: o :: _ -> int_of_n o | _ -> -1 in
+    match udp_classify ep d with
+    | UIgnore -> ()
+    | UData p ->
+        (match !pipe with
+         | Some pi when not pi.up_closed -> incr n; print_rx_msg [] p
+         | _ -> ())
+    | UDisc r ->
+        (* pipe-level disconnects (DATA / CREQ / CACK of a known peer) close the pipe and are sent once *)
+        (match !pipe with
+         | Some pi when op >= 0 && op <= 2 ->
+             if not pi.up_closed then begin reply 3 (int_of_n r) 0; pipe := Some { pi with up_closed = true } end
+         | _ -> reply 3 (int_of_n r) 0)
+    | UNewPipe (ty, _, rf) ->
+        refresh := min 5 (int_of_n rf);
+        reply 2 65000 !refresh;
+        if int_of_n ty = peerid then pipe := Some { up_peer = ty; up_rcvmax = n_of_int 65000; up_closed = false }
+        else begin
+          (* the protocol's pipe_start rejects the peer: the pipe is closed again, DISC(closed) *)
+          reply 3 0 0; pipe := Some { up_peer = ty; up_rcvmax = n_of_int 65000; up_closed = true }
+        end
+    | URefresh rf -> refresh := min !refresh (int_of_n rf); reply 2 65000 !refresh
+    | UCack _ -> ()
+    | UClosePipe -> (match !pipe with Some pi -> pipe := Some { pi with up_closed = true } | None -> ()))
+    (String.split_on_char ',' dgrams);
+  Printf.printf "end n=%d\n" !n
+
 (* ----------------------------------------------------------------- spec *)
 (* spec rx <tran> <rcvmax> <streamhex>: the staged decoder on the uncut stream *)
 let do_spec_rx tran rcvmax streamhex =
@@ -273,6 +349,10 @@ let () =
        | "tx" :: tran :: _role :: proto :: _small :: msgs :: _pd :: _ch :: _pa :: _tot :: self :: _ ->
            do_tx tran proto msgs self
        | "inproc" :: mode :: msgs :: _ -> do_inproc mode msgs
+       | "sess" :: tran :: role :: proto :: rcvmax :: st :: cuts :: fl :: ctl :: _nexp :: self :: peer :: _ ->
+           do_sess tran role proto rcvmax st cuts fl ctl self peer
+       | "wshs" :: _ -> print_endline "ctl ok=1"
+       | "udp" :: _proto :: dgrams :: _nexp :: self :: peer :: _ -> do_udp dgrams self peer
        | "wsrx" :: role :: rcvmax :: st :: cuts :: _nexp :: fl :: _ -> do_wsrx role rcvmax st cuts fl
        | "wstx" :: role :: fs :: msgs :: _ -> do_wstx role fs msgs
        | "spec" :: "rx" :: tran :: rcvmax :: st :: _ -> do_spec_rx tran rcvmax st
